@@ -33,6 +33,9 @@ func init() {
 	register(&core.Rule{ID: "C09.4", Prop: "C09", MinSites: 5,
 		Desc: "reset-on-drain: after an advance of rb.r every return is preceded by the rb.r == rb.w test whose true edge calls Reset()",
 		Run: runC09_4})
+	register(&core.Rule{ID: "C09.6", Prop: "C09", MinSites: 3,
+		Desc: "split-copy continuity: when a transfer is split at the physical end of the ring, the second piece continues exactly where the first ended (offset = size - cursor, the length of the first piece; remaining = total - that length)",
+		Run: runC09_6})
 	register(&core.Rule{ID: "C09.5", Prop: "C09", MinSites: 12,
 		Desc: "observers (Peek, peekAll, Bytes, Buffered, Available, Len, Cap, IsEmpty, IsFull) write no Buffer field; rb.r is written only by read-type operations, rb.w only by write-type ones",
 		Run: runC09_5})
@@ -561,5 +564,133 @@ func runC09_5(c *core.Ctx) {
 			}
 		}
 		c.Check(bad == "", core.SSAName(fn), "observer is pure", fn.Pos(), "writes no Buffer field", "observer "+fn.Name()+" "+bad+": Peek/Bytes/Buffered & co. must not consume or move cursors")
+	}
+}
+
+func runC09_6(c *core.Ctx) {
+	a := ringAnchors(c)
+	if a == nil {
+		return
+	}
+	for _, f := range a.funcs {
+		// variables defined as rb.size - rb.<cursor>
+		firstLen := map[types.Object]*types.Var{} // var -> cursor field
+		remDef := map[types.Object]types.Object{} // c2 -> K1 where c2 := T - K1
+		remTotal := map[types.Object]types.Object{} // c2 -> T
+		// the total of a split transfer: T in the wrap test `rb.r + T <= rb.size`
+		var total types.Object
+		ast.Inspect(f.Decl.Body, func(n ast.Node) bool {
+			if x, y, op, ok := func() (ast.Expr, ast.Expr, token.Token, bool) {
+				if e, ok := n.(ast.Expr); ok {
+					return flow.Cmp(e)
+				}
+				return nil, nil, 0, false
+			}(); ok && op == token.LEQ && flow.FieldOf(f.Info, y) == a.size {
+				if be, ok := ast.Unparen(x).(*ast.BinaryExpr); ok && be.Op == token.ADD && flow.FieldOf(f.Info, be.X) == a.r {
+					total = flow.ObjOf(f.Info, be.Y)
+				}
+			}
+			return true
+		})
+		ast.Inspect(f.Decl.Body, func(n ast.Node) bool {
+			as, ok := n.(*ast.AssignStmt)
+			if !ok || len(as.Lhs) != 1 || len(as.Rhs) != 1 {
+				return true
+			}
+			be, ok := ast.Unparen(as.Rhs[0]).(*ast.BinaryExpr)
+			if !ok || be.Op != token.SUB {
+				return true
+			}
+			o := flow.ObjOf(f.Info, as.Lhs[0])
+			if o == nil {
+				return true
+			}
+			if flow.FieldOf(f.Info, be.X) == a.size {
+				if cur := flow.FieldOf(f.Info, be.Y); cur == a.r || cur == a.w {
+					firstLen[o] = cur
+				}
+			} else if k := flow.ObjOf(f.Info, be.Y); k != nil {
+				remDef[o] = k
+				remTotal[o] = flow.ObjOf(f.Info, be.X)
+			}
+			return true
+		})
+		if len(firstLen) == 0 {
+			continue
+		}
+		isTail := func(e ast.Expr, cur *types.Var) bool { // rb.buf[rb.cur:]
+			se, ok := ast.Unparen(e).(*ast.SliceExpr)
+			return ok && flow.FieldOf(f.Info, se.X) == a.buf && se.Low != nil && se.High == nil && flow.FieldOf(f.Info, se.Low) == cur
+		}
+		isHead := func(e ast.Expr) (types.Object, bool) { // rb.buf[:k] or rb.buf
+			e = ast.Unparen(e)
+			if flow.FieldOf(f.Info, e) == a.buf {
+				return nil, true
+			}
+			se, ok := e.(*ast.SliceExpr)
+			if ok && flow.FieldOf(f.Info, se.X) == a.buf && se.Low == nil && se.High != nil {
+				return flow.ObjOf(f.Info, se.High), true
+			}
+			return nil, false
+		}
+		var calls []*ast.CallExpr
+		ast.Inspect(f.Decl.Body, func(n ast.Node) bool {
+			if call, ok := n.(*ast.CallExpr); ok {
+				if id, ok := call.Fun.(*ast.Ident); ok && id.Name == "copy" && len(call.Args) == 2 {
+					calls = append(calls, call)
+				}
+			}
+			return true
+		})
+		k := 0
+		for i := 0; i+1 < len(calls); i++ {
+			c1, c2 := calls[i], calls[i+1]
+			// consumer: copy(p, rb.buf[rb.r:]) ; copy(p[K:], rb.buf[:c2])
+			if isTail(c1.Args[1], a.r) {
+				if hi, ok := isHead(c2.Args[1]); ok {
+					k++
+					dst := flow.ObjOf(f.Info, c1.Args[0])
+					se, isSl := ast.Unparen(c2.Args[0]).(*ast.SliceExpr)
+					okk := isSl && dst != nil && flow.ObjOf(f.Info, se.X) == dst && se.Low != nil && se.High == nil
+					var kObj types.Object
+					if okk {
+						kObj = flow.ObjOf(f.Info, se.Low)
+						okk = kObj != nil && firstLen[kObj] == a.r
+					}
+					if okk && hi != nil {
+						okk = remDef[hi] == kObj && (total == nil || remTotal[hi] == total)
+					}
+					c.Check(okk, f.Name, "consumer split #"+itoa(k), c2.Pos(), "second piece lands right behind the first (offset size - r) and is total - first long",
+						"a read split at the end of the ring places its second piece at "+exprStr(c2.Args[0])+" instead of right behind the size-r bytes of the first piece (or takes a length other than total minus that): the assembled bytes are not the buffered stream")
+				}
+			}
+			// producer: copy(rb.buf[rb.w:], p[:K]) ; copy(rb.buf, p[K:])
+			if isTail(c1.Args[0], a.w) {
+				if _, ok := isHead(c2.Args[0]); ok {
+					k++
+					s1, ok1 := ast.Unparen(c1.Args[1]).(*ast.SliceExpr)
+					s2, ok2 := ast.Unparen(c2.Args[1]).(*ast.SliceExpr)
+					okk := ok1 && ok2 && s1.Low == nil && s1.High != nil && s2.Low != nil && s2.High == nil &&
+						flow.ObjOf(f.Info, s1.X) == flow.ObjOf(f.Info, s2.X) && flow.ObjOf(f.Info, s1.High) != nil &&
+						flow.ObjOf(f.Info, s1.High) == flow.ObjOf(f.Info, s2.Low) && firstLen[flow.ObjOf(f.Info, s1.High)] == a.w
+					c.Check(okk, f.Name, "producer split #"+itoa(k), c2.Pos(), "the payload is cut at size - w and both halves are stored",
+						"a write split at the end of the ring does not continue the source exactly where the first piece (size - w bytes) ended: bytes are duplicated or skipped in the stored stream")
+				}
+			}
+		}
+		// Peek-style split: head = rb.buf[rb.r:]; tail = rb.buf[:c2] with c2 := m - c1
+		ast.Inspect(f.Decl.Body, func(n ast.Node) bool {
+			as, ok := n.(*ast.AssignStmt)
+			if !ok || len(as.Lhs) != 1 || len(as.Rhs) != 1 {
+				return true
+			}
+			if hi, ok := isHead(as.Rhs[0]); ok && hi != nil {
+				if _, isCopyArg := remDef[hi]; isCopyArg && f.Obj.Name() == "Peek" {
+					k++
+					c.Check(firstLen[remDef[hi]] == a.r && (total == nil || remTotal[hi] == total), f.Name, "peek split #"+itoa(k), as.Pos(), "tail length = requested - (size - r)", "the wrapped part of a Peek has a length other than the request minus the size-r bytes of the head")
+				}
+			}
+			return true
+		})
 	}
 }
